@@ -143,7 +143,8 @@ theorem seq_append {cfg : Cfg} {fs : FS} {a b : List Stage} {Q : FS → Prop}
 
 theorem finalPaths_Tfin {cfg : Cfg} {p : Path} (h : p ∈ finalPaths cfg) : Tfin p = true := by
   simp only [finalPaths, List.mem_append, List.mem_map, List.mem_flatMap, List.mem_cons, List.not_mem_nil, or_false] at h
-  rcases h with (⟨s, _, rfl⟩ | ⟨s, _, rfl | rfl⟩) | ⟨s, _, rfl | rfl | rfl⟩ <;> rfl
+  rcases h with ((⟨s, _, rfl⟩ | ⟨s, _, rfl | rfl⟩) | ⟨s, _, rfl | rfl | rfl⟩) | ⟨s, _, rfl⟩ <;>
+    first | exact Tfin_finalOf cfg s | rfl
 
 /-- every final file is complete and correct -/
 def FinOK (cfg : Cfg) (fs : FS) : Prop := ∀ p ∈ finalPaths cfg, fs.good p = true
